@@ -15,7 +15,7 @@ from .lexstep import STATES, RANK, step_unit, state_inv
 
 MANIFEST_ENTRY = {
     'category': 'proof',
-    'text': 'scanner: for every state and an arbitrary character one execution of the real loop body raises only CklSyntaxError carrying a message and a SourcePos, re-establishes the per-state invariant and decreases the lexicographic variant (remaining characters, state rank) - so scanning terminates without host exceptions for every text; parser: every parse function is verified on an abstract token sequence with its sub-parsers replaced by the contract (returns a node after consuming at least one token, or raises CklSyntaxError with message and position, cursor stays within the token list), every loop consumes a token per iteration, nodes returned by sub-parsers are not modified (frame), parse() returns a program only when all tokens are consumed, parse_script converts a host stack overflow into a syntax error; identifier tokens are never keywords (scanner-step obligation the parser units rely on); bounded stand-in: exhaustive short token sequences, mutations of grammatical programs and character noise on the real parser under a 2 s alarm; no parse function writes module-level state (the outcome depends on the text alone), cross-checked by probe texts parsed before and after thousands of other texts in one process',
+    'text': 'scanner: for every state and an arbitrary character one execution of the real loop body raises only CklSyntaxError carrying a message and a SourcePos, re-establishes the per-state invariant and decreases the lexicographic variant (remaining characters, state rank) - so scanning terminates without host exceptions for every text; parser: every parse function is verified on an abstract token sequence with its sub-parsers replaced by the contract (returns a node after consuming at least one token, or raises CklSyntaxError with message and position, cursor stays within the token list), every loop consumes a token per iteration, nodes returned by sub-parsers are not modified (frame), parse() returns a program only when all tokens are consumed, parse_script converts a host stack overflow into a syntax error; identifier tokens are never keywords (scanner-step obligation the parser units rely on); bounded stand-in: exhaustive short token sequences, mutations of grammatical programs and character noise on the real parser under a 2 s alarm; no parse function writes module-level state (the outcome depends on the text alone), cross-checked by probe texts parsed before and after thousands of other texts in one process; the same texts parsed in fresh processes under different string-hash seeds give the same program text / message / position (bounded)',
     'note': 'nesting deeper than the host stack: RecursionError is modelled as an outcome of parse() and proved to be converted by parse_script (where it strikes is not modelled); numeral shapes of int/decimal tokens assumed by the parser units are bounded only (fuzzing); re.compile raises only re.error/OverflowError/RecursionError (guarded); code points below U+30000; composition over iterations / recursion is the standard inductive argument',
     'technique': 'deductive verification: per-step VCs of the scanner loop body and per-function VCs of the parser on an abstract token stream (pyvc + z3); bounded fuzzing as cross-check',
 }
